@@ -35,8 +35,12 @@ claim("C05", "Theorem C05_spine: environment-threaded master theorem for the cap
       "References inside $or/$not/$and_any_order/times: correspondence only. Register-family captures (D5, D15) and captures under "
       "operand-level operators (D13) violate the property: known findings, proved about the model by decide +kernel and replayed on the code.")
 claim("C06", "Theorems C06_rx (language of the compiled $deref = the specification's texts, all 8 field combinations, on any input), "
-      "C06_field, C06_no_field, C06_end_to_end (through the parser's normal form, C09)." + COMMON, "DESIGN.md 0.2, 7 C06",
-      "Literal components; rejection of near-miss operands by decided examples plus the differential.")
+      "C06_field, C06_no_field, C06_end_to_end (through the parser's normal form, C09); C06_exact / C06_exact_end_to_end (Properties/C06Exact.lean: "
+      "the normal form of a printed memory reference is accepted IFF it has exactly the components the pattern names, each equal up to the "
+      "optional % / 0x - by unique reading of normal forms, body_unique); C06_scale_without_index_counterexample (finding D17 proved about "
+      "the model)." + COMMON, "DESIGN.md 0.2, 7 C06",
+      "Literal components free of + * ] ( ) ,; C06_exact needs index register and scale named together (otherwise D17); "
+      "an independent component-agreement oracle written from the property text judges the one-operand cases of the differential.")
 claim("C07", "Theorems C07_all / C07_first (every reported match is the text of whole consecutive records n..n+k-1 and the reported address "
       "is that of record n), C07_no_span_*; C07_any_counterexample for the shipped @any." + COMMON, "DESIGN.md 0.2, 7 C07",
       "Capture-free literal fragment with any operator leading, compiled regex without empty match (syntactic class nonNull proved); @any: finding D6.")
